@@ -162,13 +162,5 @@ Example C01_example :
   = Ok (Ok (Some [1;2]), Ok (Some [1;2]), Ok (Some [7]), Ok None, [123; 125]).
 Proof. vm_compute. reflexivity. Qed.
 
-(** non-vacuity of the spill case: 4200 distinct tiles do not fit the root; the image has a 13-byte root of
-    pointers and 16805 bytes of leaf directories, and reads back *)
-Example C01_spill_example :
-  let tm := fold_left (fun s i => match add_tile ctx_id s (3 * N.of_nat i) [N.of_nat i mod 256; N.of_nat i / 256] with Ok s' => s' | _ => s end)
-                      (seq 0 4200) (tm_empty None) in
-  let p := mkPM TPng CNone CGzip 0 3 1 (of_Z 0) (of_Z 0) (of_Z 0) (of_Z 0) (of_Z 0) (of_Z 0) [123; 125] tm in
-  (do img <- to_bytes ctx_id false p; do (h, _) <- decode_header img; do p' <- from_reader ctx_id img full_range;
-   Ok (h_root_len h, h_leaf_len h, get_tile (p_tm p') 0, get_tile (p_tm p') (3 * 4199), get_tile (p_tm p') 4, num_tiles (p_tm p')))
-  = Ok (13, 16805, Ok (Some [0; 0]), Ok (Some [103; 16]), Ok None, 4200).
-Proof. vm_compute. reflexivity. Qed.
+(** non-vacuity of the spill case: see [C01_spill_example] in Examples.v (4200 tiles, evaluated with the VM; kept out
+    of this file so that the independent checker coqchk, which has no VM, can re-check the theorems) *)
